@@ -357,7 +357,7 @@ pub fn scenarios(thorough: bool) -> Vec<BookScenario> {
 		for h in 0..scripts.len() {
 			add(format!("unsub-own:h{h}:mask{mi}"), vec![vec![Subscribe(h), Unsub(0), Unsub(0)]], scripts.clone(), 2, mask);
 		}
-		add(format!("unsub-unknown-and-malformed:mask{mi}"), vec![vec![Subscribe(0), UnsubRaw(json!([999])), UnsubRaw(json!(["x"])), UnsubRaw(json!([[1]])), UnsubRaw(json!({})), UnsubRaw(json!([])), Unsub(0)]], scripts.clone(), 2, mask);
+		add(format!("unsub-unknown-and-malformed:mask{mi}"), vec![vec![Subscribe(0), UnsubRaw(json!([999])), UnsubRaw(json!(["x"])), UnsubRaw(json!(["1"])), UnsubRaw(json!([1.0])), UnsubRaw(json!([[1]])), UnsubRaw(json!({})), UnsubRaw(json!([])), Unsub(0)]], scripts.clone(), 2, mask);
 	}
 	// string subscription ids
 	for h in [0usize, 1, 5] {
